@@ -324,7 +324,7 @@ func c12DrawScenario(t *rapid.T, run *c12Run) {
 	}
 	perm := rapid.Permutation(corrupt).Draw(t, "scenarioRoles")
 	a, b := perm[0], perm[1]
-	switch rapid.IntRange(0, 8).Draw(t, "scenarioKind") {
+	switch rapid.IntRange(0, 10).Draw(t, "scenarioKind") {
 	case 0:
 		// a sends b a bad share, b keeps quiet about it, a then fails in
 		// phase 7 so its key must be reconstructed; b reveals (or not)
@@ -422,6 +422,25 @@ func c12DrawScenario(t *rapid.T, run *c12Run) {
 		b.scriptPeer = a.idx
 		run.note("scenario conflicting-second-reveal m%d", b.idx)
 		run.fired["scenario:conflicting-second-reveal"] = true
+	case 9:
+		// a publishes valid points and only goes silent in phase 10; b reveals
+		// its key for a although no reconstruction of a is needed (regression
+		// scenario for D15)
+		a.script = map[string]string{"p10": "silent"}
+		b.script = map[string]string{"p10": "reveal-add-peer"}
+		a.scriptPeer = b.idx
+		b.scriptPeer = a.idx
+		run.note("scenario unneeded-reveal m%d about m%d", b.idx, a.idx)
+		run.fired["scenario:unneeded-reveal"] = true
+	case 10:
+		// a is disqualified before QUAL is established (bad share to an honest
+		// member); b later reveals its key for a (regression scenario for D16)
+		a.script = map[string]string{"p3": "wrong-shares-for-honest", "p4": "silent", "p7": "silent", "p8": "silent", "p10": "silent"}
+		b.script = map[string]string{"p10": "reveal-add-peer"}
+		a.scriptPeer = b.idx
+		b.scriptPeer = a.idx
+		run.note("scenario reveal-about-non-qual m%d about m%d", b.idx, a.idx)
+		run.fired["scenario:reveal-about-non-qual"] = true
 	}
 }
 
